@@ -38,6 +38,7 @@ LEVEL = {
 LEVEL["decided"] += ' The cursor is a single slot (a pulled item is assigned, never accumulated); (R16.7) the default key function is an asynchronous library function used unwrapped.'
 LEVEL["decided"] += ' (R16.8) every history of next-group / next-item / close operations up to depth 6 (thorough: 8) over sources of up to 3 items in every key pattern equals itertools.groupby after every operation (object model, 2525 operations).'
 LEVEL["technique"] += '; bounded exhaustive operation histories by abstract evaluation over an object model against the executed itertools.groupby'
+LEVEL["decided"] += ' (R16.9) no weak reference to a group and no finaliser: what is yielded does not depend on which handles the caller keeps; R16.4 also: items of the stream are never compared (runs are delimited by keys alone).'
 
 KEY_NAMES = {"_target_key", "current_key", "target_key"}
 
